@@ -1024,9 +1024,9 @@ func trimJSONSpace(data native.JSON) native.JSON {
 		return data
 	}
 	i, j := 0, len(data)-1
-	for ; lookupJSONSpace[data[i]] == 1; i++ {
+	for ; i <= j && lookupJSONSpace[data[i]] == 1; i++ {
 	}
-	for ; lookupJSONSpace[data[j]] == 1; j-- {
+	for ; i <= j && lookupJSONSpace[data[j]] == 1; j-- {
 	}
 	return data[i : j+1]
 }
